@@ -30,6 +30,18 @@
 (* harness/checks/c17.py which builds the package, controls os.environ     *)
 (* and calls the real WorkflowGraph.environmentForNode.                    *)
 (*                                                                         *)
+(* Key catalogue (chosen so that every relation between an own key, an     *)
+(* imported name and the launch environment occurs):                       *)
+(*   BASE  literal text; the launch environment also has a BASE            *)
+(*   PATH  a:$BASE:b:$PATH  -- another own key + itself (the PATH idiom)   *)
+(*   CH    a:$PATH:${LK}:b:$UNK:${UNK2} -- chain of depth 2 (CH -> PATH -> *)
+(*         BASE), a launch-only name, unknown names, both notations        *)
+(*   DEFAULTS  any list (length 0..3, every order) over BASE, PATH, IMP    *)
+(*         (launch only) and NOPE (nowhere): imported names the            *)
+(*         environment also defines / does not define, listed before /     *)
+(*         after the key that refers to them.                              *)
+(* The launch environment gives every referenced name a different value.   *)
+(*                                                                         *)
 (* Values are sequences of tokens: literal text tagged with its origin     *)
 (* (key, environment, index), a reference to a variable (plain or in       *)
 (* braces), or a name of the DEFAULTS list.                                *)
@@ -44,13 +56,16 @@ CONSTANTS
     NamedD, NamedP, \* keys that may be defined in the named environment on default / p1
     PkgD, PkgP,     \* keys that may be defined in the package default environment on default / p1
     Creatable,      \* environments that may exist in this run (subset of EnvIds); they start absent
+    DLists,         \* the DEFAULTS lists explored: a set of sequences over {"BASE", "PATH", "IMP", "NOPE"}
     Family, Emit
 
-VARIABLES plat, sel, spell, interp, present, keys
-vars == <<plat, sel, spell, interp, present, keys>>
+VARIABLES plat, sel, spell, interp, present, keys,
+          dl        \* [EnvIds -> sequence of names]: the DEFAULTS list of an environment that has the key DEFAULTS
+vars == <<plat, sel, spell, interp, present, keys, dl>>
 
 EnvIds == {"named@default", "named@p1", "pkg@default", "pkg@p1"}
-Keys   == {"LIT", "ROWN", "RMIX", "PATH", "DEFAULTS"}
+Keys   == {"BASE", "PATH", "CH", "DEFAULTS"}
+DefaultsNames == {"BASE", "PATH", "IMP", "NOPE"}
 Allowed(e) == CASE e = "named@default" -> NamedD [] e = "named@p1" -> NamedP
                 [] e = "pkg@default" -> PkgD [] e = "pkg@p1" -> PkgP
 
@@ -64,20 +79,13 @@ L(k, e, i) == [t |-> "lit", k |-> k, e |-> e, i |-> i]
 R(to, br)  == [t |-> "ref", to |-> to, br |-> br]
 N(n)       == [t |-> "name", n |-> n]
 
-(* which launch variables each environment imports by name (its DEFAULTS key) *)
-DefaultsOf(e) == CASE e = "named@default" -> <<N("PATH"), N("IMP"), N("NOPE")>>
-                   [] e = "named@p1"      -> <<N("IMP"), N("LIT")>>
-                   [] e = "pkg@default"   -> <<N("PATH"), N("IMP")>>
-                   [] e = "pkg@p1"        -> <<N("LIT"), N("NOPE"), N("LK")>>
-
 (* the value environment e gives to key k *)
-ValueOf(k, e) == CASE k = "LIT"  -> <<L(k, e, 1)>>                                                       \* literal
-                   [] k = "ROWN" -> <<L(k, e, 1), R("LIT", FALSE), L(k, e, 2)>>                          \* a$LIT:b  own key (also a launch variable)
-                   [] k = "RMIX" -> <<R("LK", TRUE), L(k, e, 1), R("UNK", FALSE), L(k, e, 2), R("UNK2", TRUE)>>   \* launch only / unknown names
-                   [] k = "PATH" -> <<L(k, e, 1), R("PATH", FALSE)>>                                     \* mine:$PATH
-                   [] k = "DEFAULTS" -> DefaultsOf(e)
+ValueOf(k, e) == CASE k = "BASE" -> <<L(k, e, 1)>>                                                             \* literal
+                   [] k = "PATH" -> <<L(k, e, 1), R("BASE", FALSE), L(k, e, 2), R("PATH", FALSE)>>             \* a:$BASE:b:$PATH
+                   [] k = "CH"   -> <<L(k, e, 1), R("PATH", FALSE), R("LK", TRUE), L(k, e, 2), R("UNK", FALSE), R("UNK2", TRUE)>>
+                   [] k = "DEFAULTS" -> [i \in 1..Len(dl[e]) |-> N(dl[e][i])]                                  \* names imported from launch
 
-LaunchKeys == {"PATH", "LK", "LIT", "IMP", "DECOY", "HOME", "PYTHONPATH", "LD_LIBRARY_PATH"}
+LaunchKeys == {"PATH", "BASE", "LK", "IMP", "DECOY", "HOME", "PYTHONPATH", "LD_LIBRARY_PATH"}     \* NOPE, UNK, UNK2, CH: not at launch
 Launch == TLCEval([k \in LaunchKeys |-> <<L(k, "launch", 1)>>])
 Sys    == TLCEval([k \in {"SYS"} |-> <<L(k, "system", 1)>>])
 PathVars == {"PATH", "PYTHONPATH", "PYTHONHOME", "LD_LIBRARY_PATH"}      \* PYTHONHOME is not in the launch environment
@@ -142,18 +150,26 @@ Expected == ExpectedOf(present, keys)
 Init == /\ plat \in Plats /\ sel \in Sels /\ spell \in Spells /\ interp \in Interps
         /\ present = {}
         /\ keys = [e \in EnvIds |-> {}]
+        /\ dl = [e \in EnvIds |-> <<>>]
 
 Create(e) == /\ e \in Creatable /\ e \notin present
              /\ present' = present \cup {e}
-             /\ UNCHANGED <<plat, sel, spell, interp, keys>>
+             /\ UNCHANGED <<plat, sel, spell, interp, keys, dl>>
 
-AddKey(e, k) == /\ e \in present /\ k \in Allowed(e) /\ k \notin keys[e]
+AddKey(e, k) == /\ e \in present /\ k \in Allowed(e) /\ k \notin keys[e] /\ k # "DEFAULTS"
                 /\ keys' = [keys EXCEPT ![e] = @ \cup {k}]
-                /\ UNCHANGED <<plat, sel, spell, interp, present>>
+                /\ UNCHANGED <<plat, sel, spell, interp, present, dl>>
+
+(* the environment gets a DEFAULTS key with the list d (possibly empty) *)
+AddDefaults(e, d) == /\ e \in present /\ "DEFAULTS" \in Allowed(e) /\ "DEFAULTS" \notin keys[e]
+                     /\ keys' = [keys EXCEPT ![e] = @ \cup {"DEFAULTS"}]
+                     /\ dl' = [dl EXCEPT ![e] = d]
+                     /\ UNCHANGED <<plat, sel, spell, interp, present>>
 
 Next == \/ \E e \in {"named@default", "named@p1", "pkg@default", "pkg@p1"} : Create(e)
         \/ \E e \in {"named@default", "named@p1", "pkg@default", "pkg@p1"},
-              k \in {"LIT", "ROWN", "RMIX", "PATH", "DEFAULTS"} : AddKey(e, k)
+              k \in {"BASE", "PATH", "CH"} : AddKey(e, k)
+        \/ \E e \in {"named@default", "named@p1", "pkg@default", "pkg@p1"}, d \in DLists : AddDefaults(e, d)
 
 Spec == Init /\ [][Next]_vars
 
@@ -163,6 +179,8 @@ Spec == Init /\ [][Next]_vars
 (* naming the conjunct that fails.                                                                                 *)
 TypeOK == /\ plat \in {"default", "p1"} /\ sel \in AllSels /\ spell \in {"lower", "mixed"} /\ interp \in BOOLEAN
           /\ present \subseteq EnvIds /\ \A e \in EnvIds : keys[e] \subseteq Keys /\ (e \notin present => keys[e] = {})
+          /\ \A e \in EnvIds : /\ \A i \in 1..Len(dl[e]) : dl[e][i] \in DefaultsNames
+                               /\ ("DEFAULTS" \notin keys[e] => dl[e] = <<>>)
 
 DeclaredP(B) == IF B.n = "-" THEN {} ELSE DOMAIN Layered(B.n) \ {"DEFAULTS"}
 LegitP(B)    == DOMAIN Sys \cup DeclaredP(B) \cup (IF B.ok THEN Imported(Merge(Sys, B.env)) ELSE {})
@@ -184,12 +202,15 @@ NoForeignTextP(E, B) == (E.ok /\ B.n # "-") =>
 
 (* platform over default: a key both define starts with the platform's text *)
 PlatformOverDefaultP(E, B) == (E.ok /\ B.n # "-" /\ plat = "p1" /\ Id(B.n, "p1") \in present) =>
-                                 \A k \in (keys[Id(B.n, "p1")] \cap {"LIT", "ROWN", "PATH"}) :
+                                 \A k \in (keys[Id(B.n, "p1")] \cap {"BASE", "PATH", "CH"}) :
                                      E.env[k][1] = L(k, Id(B.n, "p1"), 1)
 
-(* own before launch: $LIT inside ROWN becomes the environment's LIT whenever the environment has one *)
-OwnBeforeLaunchP(E, B) == (E.ok /\ B.n # "-" /\ "ROWN" \in DeclaredP(B) /\ "LIT" \in DeclaredP(B)) =>
-                             E.env["ROWN"][2].e # "launch"
+(* own before launch: $BASE inside PATH becomes the environment's BASE whenever the environment has one -- also   *)
+(* when BASE and PATH are both imported by DEFAULTS, in either order; $PATH inside PATH is the launch PATH exactly *)
+(* when PATH is imported, otherwise the environment's own (unexpanded) PATH                                        *)
+OwnBeforeLaunchP(E, B) == (E.ok /\ B.n # "-" /\ "PATH" \in DeclaredP(B) /\ "BASE" \in DeclaredP(B)) =>
+                             /\ E.env["PATH"][2].t = "lit" /\ E.env["PATH"][2].k = "BASE" /\ E.env["PATH"][2].e # "launch"
+                             /\ ("PATH" \in Imported(Merge(Sys, B.env))) => E.env["PATH"][4] = L("PATH", "launch", 1)
 
 (* environments that are not a source for this selection and platform (the other kind of environment, the other *)
 (* platform's environments) never matter: the result equals the one for the package without them                  *)
